@@ -7,6 +7,7 @@ RULES = [
     (5, "stop-finds-nothing-while-running"),
     (3, "wait-returns-while-run-is-live"),
     (4, "wait-result-does-not-match-run-end"),
+    (10, "wait-returns-an-older-runs-result"),
     (6, "closing-status-written-while-a-run-is-live"),
     (8, "start-refused-after-the-end"),
     (7, "final-status-disagrees-with-runs"),
